@@ -1964,11 +1964,45 @@ def shared_state_after_copy(col):
                         col.fail("decoding-into-one-object-changes-its-copy", how, f"{before.hex()} -> {bytes(other).hex()}")
 
 
+class LibraryHang(BaseException):
+    """raised by the watchdog inside an operation that does not return (BaseException: not swallowed by `except Exception`)"""
+
+
+class watchdog:
+    """one relation on one instance takes milliseconds (the largest instances: a few seconds); an evaluation still
+    running after LIMIT seconds is an operation of the library that does not terminate"""
+    LIMIT = int(os.environ.get("STANDIN_WATCHDOG", "180"))      # (the variable only exists to test the watchdog itself)
+
+    def __init__(self, what, limit=None):
+        self.what = what
+        self.limit = limit or self.LIMIT
+
+    def _fire(self, *a):
+        raise LibraryHang(self.what)
+
+    def __enter__(self):
+        import signal
+        self.old = signal.signal(signal.SIGALRM, self._fire)
+        signal.setitimer(signal.ITIMER_REAL, self.limit)
+
+    def __exit__(self, *a):
+        import signal
+        signal.setitimer(signal.ITIMER_REAL, 0)
+        signal.signal(signal.SIGALRM, self.old)
+        return False
+
+
 def extra(col, name, fn):
+    if getattr(col, "hangs", 0) >= 2:
+        return          # the run was stopped after repeated non-termination (already reported)
     """run one group of relations; an exception that escapes it FROM THE LIBRARY (innermost frame in the repository's
     source) is a reported failure of that group, an exception of the harness itself stays a crash (no verdict)"""
     try:
-        fn()
+        with watchdog(name, 4 * watchdog.LIMIT):          # a whole group of relations: normally seconds
+            fn()
+    except LibraryHang:
+        col.fail("operation-does-not-terminate", name, f"a relation of the group {name} was still running after {4 * watchdog.LIMIT} s")
+        col.hangs = getattr(col, "hangs", 0) + 2
     except Exception as e:
         tb = traceback.extract_tb(e.__traceback__)
         if tb and "/betterproto/" in tb[-1].filename.replace("\\", "/") and "/standin" not in tb[-1].filename:
@@ -2001,10 +2035,19 @@ def main(argv=None):
     else:
         rel = RELS.get(a.prop)
         for how, make in (instances(rnd, a.n) if rel is not None else []):
+            if getattr(col, "hangs", 0) >= 2:
+                break
             col.cases += 1
             col.distinct.add(how)
             try:
-                rel(col, how, make)
+                with watchdog(how):
+                    rel(col, how, make)
+            except LibraryHang:
+                col.fail("operation-does-not-terminate", how, f"still running after {watchdog.LIMIT} s")
+                col.hangs = getattr(col, "hangs", 0) + 1
+                if col.hangs >= 2:
+                    col.fail("operation-does-not-terminate", "(run stopped)", "two evaluations did not terminate: the remaining instances were not evaluated")
+                    break
             except Exception as e:      # harness problem: reported, never silently passed
                 col.fail("harness:" + type(e).__name__, how, traceback.format_exc()[-400:])
             if len(col.samples) < 3 and col.cases % 17 == 3:
